@@ -8,7 +8,7 @@ same inputs: same return value, or failure in both (for delta creation: both res
  create_delta        the C03 pair domain; both deltas applied by both decoders
  bisect_find_sha     all sorted tables <= 4 ids x all (start, end) in [-1, n] x probes (present, absent, wrong length)
  _merge_entries      all pairs of trees <= 2 entries from 5 names x 2 modes
- _count_blocks       blobs with long lines, no newline, empty, binary
+ _count_blocks       blobs with long lines, no newline, empty, binary, and all strings <= 4 over {a, LF, CR, VT, FF, FS, NEL}
  _is_tree            entries with directory / file / None modes, None
 Never counted as proved.  The Rust code itself is outside the deductive verifier's reach (no Rust verifier installed)."""
 import importlib.util
@@ -196,7 +196,9 @@ def main():
         for e in (None, TreeEntry(b"a", 0o40000, sha), TreeEntry(b"a", 0o100644, sha), TreeEntry(b"a", None, None), TreeEntry(b"a", 0o160000, sha), TreeEntry(b"a", 0o120000, sha)):
             cases += 1
             same("_is_tree", outcome(D._is_tree, e), outcome(rs["_diff_tree"]._is_tree, e), {"entry": repr(e)})
-        for data in (b"", b"a", b"a\n", b"a\nb\n", b"x" * 63 + b"\n", b"x" * 64 + b"\n", b"x" * 65 + b"\n", b"x" * 200, b"\n\n\n", bytes(range(256)) * 3, b"ab\n" * 500, b"\xff" * 64 + b"a\n" + b"\x00" * 10):
+        line_breakers = [bytes(t) for n in range(0, 5) for t in itertools.product(b"a\n\r\x0b\x0c\x1c\x85", repeat=n)]      # every byte str.splitlines() treats as a line end
+        for data in [b"", b"a", b"a\n", b"a\nb\n", b"x" * 63 + b"\n", b"x" * 64 + b"\n", b"x" * 65 + b"\n", b"x" * 200, b"\n\n\n", bytes(range(256)) * 3, b"ab\n" * 500,
+                     b"\xff" * 64 + b"a\n" + b"\x00" * 10, b"x" * 63 + b"\r\n", b"x" * 62 + b"\r\n" + b"y" * 70, b"mac\rtext\rlines\r"] + line_breakers:
             cases += 1
             same("_count_blocks", outcome(D._count_blocks, Blob.from_string(data)), outcome(rs["_diff_tree"]._count_blocks, Blob.from_string(data)), {"data_len": len(data), "data": data[:20].decode("latin-1")})
     finally:
